@@ -36,10 +36,49 @@ func c19Wait(timeout time.Duration, cond func() bool) bool {
 	}
 }
 
+var c19IDStates = []string{"directory-at-path", "nonempty-directory-at-path", "dangling-symlink", "symlink-loop", "empty-file", "file-from-earlier-run", "file-with-trailing-newline"}
+
+// c19PrepareIDFile puts <dataDir>/.instance_id into the given state; for the
+// states that model an id written by an earlier run it returns that id.
+func c19PrepareIDFile(dataDir, scratch, state string, rng *kit.RNG) (string, error) {
+	if err := os.MkdirAll(dataDir, 0755); err != nil {
+		return "", err
+	}
+	p := filepath.Join(dataDir, instanceIDFile)
+	uuid := func() string {
+		b := rng.Bytes(16)
+		b[6] = (b[6] & 0x0f) | 0x40
+		b[8] = (b[8] & 0x3f) | 0x80
+		return fmt.Sprintf("%08x-%04x-%04x-%04x-%012x", b[0:4], b[4:6], b[6:8], b[8:10], b[10:16])
+	}
+	switch state {
+	case "directory-at-path":
+		return "", os.Mkdir(p, 0755)
+	case "nonempty-directory-at-path":
+		if err := os.Mkdir(p, 0755); err != nil {
+			return "", err
+		}
+		return "", os.WriteFile(filepath.Join(p, "lost+found"), []byte("x"), 0644)
+	case "dangling-symlink":
+		return "", os.Symlink(filepath.Join(scratch, "no-such-dir", "id"), p)
+	case "symlink-loop":
+		return "", os.Symlink(instanceIDFile, p)
+	case "empty-file":
+		return "", os.WriteFile(p, nil, 0644)
+	case "file-from-earlier-run":
+		id := uuid()
+		return id, os.WriteFile(p, []byte(id), 0644)
+	case "file-with-trailing-newline":
+		id := uuid()
+		return id, os.WriteFile(p, []byte(id+"\n"), 0644)
+	}
+	return "", fmt.Errorf("unknown state %s", state)
+}
+
 func TestVerifC19Collector(t *testing.T) {
 	rep := kit.NewReport("C19", "collector")
 	defer rep.Write()
-	rep.SetRule("real telemetry.Collector with http.DefaultTransport replaced by a recorder; seeded cases: Enabled=false (Start, Stop) => zero requests when Stop() has returned; Enabled=true with an interval of 1..5 ms => wait for N reports, Stop(), judge every report (whitelisted JSON keys, documented endpoint, no unknown header, no needle from the data-directory path; recorder answering 200 / 500 / network error); instance id: version-4 UUID on a fresh directory, stable across collectors on the same directory, different across directories.  non-trivial = collector ran Start..Stop (enabled: >= N reports judged); distinct = enabled x interval x recorder answer x case number")
+	rep.SetRule("real telemetry.Collector with http.DefaultTransport replaced by a recorder; seeded cases: Enabled=false with an interval from every class (1..5 ms, 0, negative, the 24 h default, huge) (Start, Stop) => zero requests when Stop() has returned; every third enabled case finds <data dir>/.instance_id in an unusual state (directory, non-empty directory, symlink into a missing directory, symlink loop, empty file, id file of an earlier run with / without trailing newline): New may refuse (the collector stays off) — if it returns a collector, that one is run and judged like any other and an id of an earlier run must be the one reported; Enabled=true with an interval of 1..5 ms => wait for N reports, Stop(), judge every report (whitelisted JSON keys, documented endpoint, no unknown header, no needle from the data-directory path; recorder answering 200 / 500 / network error); instance id: version-4 UUID on a fresh directory, stable across collectors on the same directory, different across directories.  non-trivial = collector ran Start..Stop (enabled: >= N reports judged); distinct = enabled x interval x recorder answer x case number")
 	rec := &kit.C19Recorder{}
 	old := http.DefaultTransport
 	http.DefaultTransport = rec
@@ -69,7 +108,47 @@ func TestVerifC19Collector(t *testing.T) {
 		replay := map[string]any{"case": i, "enabled": enabled, "interval": interval.String(), "recorder_mode": mode, "data_dir": dataDir, "seed": kit.Seed()}
 		rec.Take()
 		rec.SetMode(mode)
+		// disabled collectors: every class of interval an operator may have
+		// written next to the opt-out (the interval must not matter)
+		ivClass := "ms"
+		if !enabled {
+			switch (i / 4) % 5 {
+			case 1:
+				ivClass, interval = "zero", 0
+			case 2:
+				ivClass, interval = "negative", -time.Duration(rng.Range(1, 100000))*time.Second
+			case 3:
+				ivClass, interval = "default-24h", DefaultInterval
+			case 4:
+				ivClass, interval = "huge", time.Duration(1<<62)
+			}
+			replay["interval"] = interval.String()
+		}
+		// enabled collectors: every third one meets an instance-id file in an
+		// unusual state
+		idState, preID := "healthy", ""
+		if enabled && i%3 == 1 {
+			idState = c19IDStates[(i/3)%len(c19IDStates)]
+			var err error
+			if preID, err = c19PrepareIDFile(dataDir, dir, idState, rng); err != nil {
+				rep.Inconc(fmt.Sprintf("instance-id file state %s could not be produced: %v", idState, err))
+				os.RemoveAll(dir)
+				continue
+			}
+			replay["instance_id_file_state"] = idState
+		}
 		c, err := New(&Config{Enabled: enabled, Interval: interval, DataDir: dataDir}, version, log)
+		if err != nil && idState != "healthy" {
+			// the collector stays off: nothing can be sent under any identity
+			if n := rec.Len(); n > 0 {
+				replay["requests"] = rec.Take()
+				rep.Violation("C19:request-without-collector", fmt.Sprintf("New refused (instance-id file: %s) but %d request(s) were made", idState, n), replay)
+			}
+			rep.Count("unusable_id_file_collector_stays_off/"+idState, 1)
+			rep.Nontrivial(fmt.Sprintf("on|idfile=%s|off", idState))
+			os.RemoveAll(dir)
+			continue
+		}
 		if err != nil {
 			rep.Inconc("New failed: " + err.Error())
 			os.RemoveAll(dir)
@@ -87,10 +166,15 @@ func TestVerifC19Collector(t *testing.T) {
 		if !enabled {
 			if len(reqs) > 0 {
 				replay["requests"] = reqs
-				rep.Violation("C19:telemetry-sent-while-disabled:collector", fmt.Sprintf("a collector with Enabled=false made %d request(s)", len(reqs)), replay)
+				fp := "C19:telemetry-sent-while-disabled:collector"
+				if ivClass == "zero" || ivClass == "negative" {
+					fp += ":interval-" + ivClass
+				}
+				rep.Violation(fp, fmt.Sprintf("a collector with Enabled=false and interval %s made %d request(s)", interval, len(reqs)), replay)
 			} else {
 				rep.Count("disabled_collectors_silent", 1)
-				rep.Nontrivial(fmt.Sprintf("off|%d", i))
+				rep.Count("disabled_silent/interval-"+ivClass, 1)
+				rep.Nontrivial(fmt.Sprintf("off|%s|%d", ivClass, i))
 			}
 		} else {
 			ex := kit.C19Expect{Version: version, GOOS: runtime.GOOS, GOARCH: runtime.GOARCH, FreshInstance: true}
@@ -107,6 +191,13 @@ func TestVerifC19Collector(t *testing.T) {
 			}
 			if len(reqs) >= want {
 				rep.Nontrivial(fmt.Sprintf("on|%s|mode%d|%d", interval, mode, i))
+				if idState != "healthy" {
+					rep.Count("unusual_id_file_collector_reports/"+idState, 1)
+					rep.Nontrivial(fmt.Sprintf("on|idfile=%s|reports", idState))
+				}
+			}
+			if preID != "" && c.GetInstanceID() != preID {
+				rep.Violation("C19:instance-id-not-persistent", fmt.Sprintf("the data directory already held the instance id %q (%s), the collector reports %q", preID, idState, c.GetInstanceID()), replay)
 			}
 			if i < 8 && len(reqs) > 0 {
 				rep.Sample(map[string]any{"interval": interval.String(), "recorder_mode": mode, "reports": len(reqs), "first": reqs[0]})
